@@ -880,11 +880,13 @@ Proof.
 Qed.
 
 (** ================================================================================== *)
-(** ---- [tuple_positional] is not implied by [Denote.wf_case]: a finding about the predicate [ok] ----
-    A constant feeding an observed-using operation through a NAMED parameter: the graph is
-    [wf_case], its observed data depends on no stochastic node, yet the model refuses the run
-    ([EBadCall] on the args_to_tuple twin) -- so [ok] rejects the refusal ([ImplErr]) although the
-    model itself refuses.  *)
+(** ---- [tuple_positional] is a condition of its own: a finding about the predicate [ok] ----
+    A constant feeding an observed-using operation through a NAMED parameter: a named DAG with
+    exactly one of output / operation per node ([wfsrc_b], and the first version of
+    [Denote.wf_case], [C03_Refusal.wf_case_old]), its observed data depends on no stochastic node,
+    yet the model refuses the run ([EBadCall] on the args_to_tuple twin).  [Denote.wf_case] now
+    asks for positional parents of args_to_tuple twins, so the graph is not [wf_case] and [ok]
+    accepts the refusal ([C03_Refusal.tuple_named_parent_old]: the first version rejected it).  *)
 Definition np_st (o : option value) (op uo : bool) (id : name) : sstate :=
   {| s_output := o; s_has_op := op; s_stochastic := false; s_observable := false; s_uses_observed := uo;
      s_uses_batch_size := false; s_uses_meta := false; s_parameter := false; s_opid := id |}.
@@ -897,9 +899,9 @@ Definition np_src : snet :=
 Example tuple_named_parent_refused :
   generate np_src ["d"%string] [] = Err (EBadCall "_d_observed"%string)
   /\ wfsrc_b np_src = true
-  /\ wf_case {| k_src := np_src; k_outputs := ["d"%string]; k_with := []; k_impl := ImplErr |} = true
+  /\ wf_case {| k_src := np_src; k_outputs := ["d"%string]; k_with := []; k_impl := ImplErr |} = false
   /\ stochastic_observed np_src = false
-  /\ ok {| k_src := np_src; k_outputs := ["d"%string]; k_with := []; k_impl := ImplErr |} = false
+  /\ ok {| k_src := np_src; k_outputs := ["d"%string]; k_with := []; k_impl := ImplErr |} = true
   /\ agree {| k_src := np_src; k_outputs := ["d"%string]; k_with := []; k_impl := ImplErr |} = true.
 Proof. vm_compute. repeat split; reflexivity. Qed.
 
